@@ -42,13 +42,20 @@ def make_case(rng, i, tier):
     notes = gen.wf_notes(rng, rng.randint(0, 7), chans=chans, pitches=(60, 61, 62), tmax=80, lmin=1, lmax=50)
     extra = gen.rand_extras(rng, rng.randint(0, 3), 100, kinds=("cc", "pc", "ts", "ks"), chans=chans)
     spec = {"notes": notes, "extra": extra, "start": start}
-    if op == "cutoff" and (i // 5) % 4 == 1:
+    if op == "cutoff" and (i // 5) % 2 == 1:
         # cut-off pairs notes over the canonically sorted list: the insertion order of the absolute messages must not matter
         spec["start"], spec["shuffle_seed"] = "abs_shuffled", i
+        for n0 in list(notes)[:2]:
+            # a legato repetition: the same key struck again on the tick it is released
+            cand = [n0[0], n0[1], n0[2] + n0[3], 5 + (i % 40), 33]
+            if all(not (x[0] == cand[0] and x[1] == cand[1] and not (cand[2] + cand[3] <= x[2] or cand[2] >= x[2] + x[3])) for x in notes):
+                notes.append(cand)
     if rng.random() < 0.35:
         spec["pad"] = rng.randrange(0, 200)
     d = gen.end_of(spec)
     case = {"op": op, "seq": spec, "prefix": random_prefix(rng, n=(1, 3)) if i % 3 == 2 else []}
+    if spec.get("start") == "abs_shuffled":
+        case["prefix"] = []      # (a prefix would run operations that walk the list as stored; only cut-off itself is under test here)
     if op == "pad":
         case["n"] = rng.choice([0, d, d + 1, max(d - 1, 0), rng.randrange(0, 300), d + 96])
     elif op == "cutoff":
